@@ -57,6 +57,11 @@ def build_pool(seed: int, tier: str):
         src = (f".map identifier={ident} bank_range=0x{first:02x}, 0x{last:02x} addr_range={win} mask={mask}\n.map identifier=9 bank_range=0x7e, 0x7f addr_range=0x0000, 0xffff mask=0x10000 writable=1\n"
                f"*=0x{org:06x}\nlb_m:\n.dl lb_m\n.db 1, 2, 3\nlb_n:\n.dl lb_n\n")
         add("custom-map", src, entries=("mem", "file_ips") if tier == "quick" else all_entries)
+    # different custom mappings of the SAME banks and addresses (anything cached per address must not survive an assembly)
+    for tag, win, mask in (("a", "0x8000, 0xffff", "0x8000"), ("b", "0x0000, 0xffff", "0x10000")):
+        src = (f".map identifier=1 bank_range=0x00, 0x3f addr_range={win} mask={mask} mirror_bank_range=0x80, 0xbf\n"
+               f"*=0x018000\nlb_m:\n.dl lb_m\n*=0x02fffe\nlb_n:\n.dl lb_n, lb_n\n*=0x838000\n.db 7\n")
+        add("custom-map-same-addresses-" + tag, src, entries=("mem", "file_ips") if tier == "quick" else all_entries)
     # probes that are sensitive to a leaked mapping / symbol / macro / table
     add("probe-low", "*=0x128000\nlb_p:\n.dl lb_p\n*=0x058123\n.dl lb_p\n*=0x81fffe\nlb_q:\n.dl lb_q, lb_q\n", "low", entries=all_entries, probes=["lb_p", "lb_q"])
     add("probe-high", "*=0xd28000\nlb_p:\n.dl lb_p\n*=0x41fffe\nlb_q:\n.dl lb_q, lb_q\n", "high", entries=all_entries, probes=["lb_p", "lb_q"])
@@ -126,7 +131,7 @@ def custom_units(tier, seed):
     return [{"shard": s, "n": n, "tier": tier} for s in range(16)]
 
 
-SENSITIVE = {"incbin-user", "incbin-other-content", "ips-user", "ips-other-content", "probe-low", "probe-high", "probe-unmapped-in-low", "uses-shared-undefined", "uses-macro-undefined", "uses-scope-undefined", "if-on-shared", "text-without-table", "table-user", "table-user-2",
+SENSITIVE = {"custom-map-same-addresses-a", "custom-map-same-addresses-b", "custom-map", "incbin-user", "incbin-other-content", "ips-user", "ips-other-content", "probe-low", "probe-high", "probe-unmapped-in-low", "uses-shared-undefined", "uses-macro-undefined", "uses-scope-undefined", "if-on-shared", "text-without-table", "table-user", "table-user-2",
              "include-user", "include-other-content", "valid-generated"}
 
 
@@ -143,7 +148,7 @@ def run_case(case) -> Outcome:
     nt = False
     for i, (h, g) in enumerate(zip(hist, got)):
         k = jobs[h]["kind"]
-        if (k.startswith("fail") or k in ("custom-map", "defines-shared")):
+        if (k.startswith("fail") or k.startswith("custom-map") or k == "defines-shared"):
             disturbing = True
         elif disturbing and k in SENSITIVE:
             nt = True
@@ -156,7 +161,7 @@ def run_case(case) -> Outcome:
                     f"  history: {json.dumps({f: g.get(f) for f in diff})[:500]}\n  jobs before it: {kinds[:i]}\n--- source\n{jobs[h]['src'][:600]}")
             break
     out.nontrivial = nt
-    if "custom-map" in kinds:
+    if any(k.startswith("custom-map") for k in kinds):
         out.labels.append("has-custom-map")
     if any(k.startswith("fail") for k in kinds):
         out.labels.append("has-failing")
